@@ -601,3 +601,20 @@ Qed.
 (* ... while the repaired code raises an exception on the same input *)
 Example recv_eof_inside_multiline_fixed : fst (recv (fixed_cfg 64) f2_conn) = Exn.
 Proof. vm_compute. reflexivity. Qed.
+
+(* commands sent between receive steps change nothing: the replies are those of the same number of receive steps *)
+Lemma run_ops_recv_n : forall ops c s, run_ops ops c s = recv_n (count_recv ops) c s.
+Proof.
+  induction ops as [|o ops IH]; intros c s; [reflexivity|].
+  destruct o; cbn [run_ops count_recv recv_n]; [|apply IH].
+  destruct (recv_step c s) as [r s']. destruct r; try reflexivity. rewrite IH. reflexivity.
+Qed.
+
+Theorem recv_frames_with_sends m : forall ops rs s tail,
+  forallb (wf_reply m) rs = true -> forallb not421 rs = true ->
+  stream_of s = render rs ++ tail -> count_recv ops = length rs ->
+  exists s', run_ops ops (fixed_cfg m) s = (map (fun r => Ok (expected r)) rs, s') /\
+             stream_of s' = tail.
+Proof.
+  intros ops rs s tail W N E C. rewrite run_ops_recv_n, C. exact (recv_frames m rs s tail W N E).
+Qed.
